@@ -308,6 +308,15 @@ func TestC20(t *testing.T) {
 	for k, v := range baseline.Keywords {
 		acases = append(acases, ev.Case{Kind: "after_base_keyword", In: k, In2: v})
 	}
+	for _, k := range baseline.Tags {
+		acases = append(acases, ev.Case{Kind: "after_base_tag", In: k})
+	}
+	for k, v := range baseline.Attrs {
+		acases = append(acases, ev.Case{Kind: "after_base_attr", In: k, In2: fmt.Sprint(v)})
+	}
+	for k, v := range baseline.Events {
+		acases = append(acases, ev.Case{Kind: "after_base_event", In: k, In2: fmt.Sprint(v)})
+	}
 	sort.Slice(acases, func(i, j int) bool {
 		if acases[i].Kind != acases[j].Kind {
 			return acases[i].Kind < acases[j].Kind
